@@ -870,6 +870,7 @@ static void gen_out_level(char *out, size_t cap) {
 }
 
 /* --- CPU kind / memory attribute options (B9) --- */
+static void gen_simple_loc(char *out, size_t cap, int nodeset_input);
 static void gen_cpukind_arg(char *out, size_t cap) {
   int nr = hwloc_cpukinds_get_nr(topo, 0); unsigned k = rng_below(100);
   if (k < 45) { snprintf(out, cap, "%u", rng_below((unsigned) (nr > 0 ? nr : 0) + 2)); return; }
@@ -955,8 +956,28 @@ static int slow_args(struct args *a) {
     if (strstr(a->v[i], "0x") && strlen(a->v[i]) > 7) hex = 1; }
   return list && hex;
 }
+/* a focused run on a topology with CPU kinds / memory attributes: valid locations naming one or two objects, so that the kind filter,
+ * the local-node selection and the best-attribute filter see non-trivial sets */
+static void gen_calc_attr(void) {
+  static char line[1 << 16]; struct args a = {0}; char buf[512];
+  if (rng_chance(45)) { a_add(&a, "--cpukind"); gen_cpukind_arg(buf, sizeof buf); a_add(&a, buf); }
+  unsigned nloc = 1 + rng_below(2), k = rng_below(100);
+  for (unsigned i = 0; i < nloc; i++) { gen_simple_loc(buf, sizeof buf, 0); if (i == 0 && (buf[0] == 'x' || buf[0] == '~' || buf[0] == '^')) memmove(buf, buf + 1, strlen(buf)); a_add(&a, buf); }
+  if (k < 55) { add_mem_option(&a); if (rng_chance(35)) add_mem_option(&a); }
+  else if (k < 70) { a_add(&a, rng_chance(50) ? "-N" : "-I"); a_add(&a, rng_chance(50) ? "cpukind" : "memorytier"); }
+  else if (k < 80) a_add(&a, rng_chance(50) ? "--single" : "--no-smt");
+  else if (k < 90) { a_add(&a, "-I"); a_add(&a, rng_chance(50) ? "numa" : "pu"); }
+  if (rng_chance(25)) a_add(&a, "--oo");
+  if (rng_chance(15)) a_add(&a, rng_chance(50) ? "-p" : "--po");
+  if (rng_chance(10)) a_add(&a, "-n");
+  if (rng_chance(10)) { a_add(&a, "--sep"); a_add(&a, ";"); }
+  stat_hit("calc:attr-focused");
+  int off = app(line, 0, sizeof line, "CALC a %%_");
+  emit_args(line, off, sizeof line, &a); a_free(&a);
+}
 static void gen_calc(void) {
   static char line[1 << 16]; struct args a = {0}; int has_v;
+  if (has_attrs() && rng_chance(cur_restrict[0] ? 15 : 30)) { gen_calc_attr(); return; }
   do { a_free(&a); gen_calc_args(&a, &has_v); } while (slow_args(&a));
   /* stdin: used when no location is accepted on the command line */
   char in[4096] = ""; int ioff = 0;
